@@ -15,6 +15,7 @@ import (
 	"bytes"
 	"errors"
 	"fmt"
+	"go/format"
 	"go/parser"
 	"go/token"
 	"io/ioutil"
@@ -111,7 +112,22 @@ func draw(run *core.Run) *workload {
 		used[p] = true
 		opt := gen.Options{MaxImports: 5, MaxDecls: 4, AllowCgo: true, Conflicts: t.Bool(1, 3), UseAll: true, NoVendor: true, PkgName: pkgName}
 		sp := gen.Source(t, opt)
-		w.files = append(w.files, fileSpec{path: p, src: sp.Src})
+		src := sp.Src
+		if t.Bool(1, 5) {
+			// generated code (goyacc, protoc, ...) carries //line directives: positions then report
+			// another file name, but the file was still loaded from p
+			ln := []string{"expr.y", "/sim/pkg/gen.y", "a.go", "../x.go", "/sim/pkg/b.go"}[t.Draw(5)]
+			src = fmt.Sprintf("//line %s:%d\n", ln, 1+t.Draw(50)) + src
+			if t.Bool(1, 2) {
+				src = strings.Replace(src, "\nfunc ", fmt.Sprintf("\n//line %s:%d\nfunc ", ln, 100+t.Draw(50)), 1)
+			}
+		}
+		if canon, err := format.Source([]byte(src)); err == nil {
+			src = string(canon) // the directive placement must be gofmt-canonical too
+		} else {
+			panic("harness: source with line directives does not format: " + err.Error())
+		}
+		w.files = append(w.files, fileSpec{path: p, src: src})
 	}
 	// Syntax order: a tape-chosen permutation
 	w.order = make([]int, nfiles)
